@@ -85,7 +85,7 @@ impl AbstractInstructionSet {
         }
 
         self.ops.retain_mut(|op| {
-            let mut retain = true;
+            let retain = true;
             let mut clear_state = false;
 
             // Uncomment to debug what this optimization is doing
@@ -183,8 +183,11 @@ impl AbstractInstructionSet {
                                     && get_def_version(&latest_version, &base_reg.reg)
                                         == base_reg.ver =>
                             {
-                                // `src` holds the current value of `dest`.
-                                retain = false;
+                                // `src` holds the current value of `dest`, so the MOVE does not
+                                // change `dest`. It still resets `$of` and `$err`, as every ALU
+                                // instruction does, so put a NOOP in its place, which does the same.
+                                // `remove_redundant_ops` drops the NOOP unless the flags are read next.
+                                *op = VirtualOp::NOOP;
                             }
                             _ => {
                                 let ver = get_def_version(&latest_version, src);
